@@ -124,9 +124,12 @@ def assign (ν : Naming) (pairs : List (VarId × Name)) : Naming :=
     | some n => n
     | none => ν v
 
-/-- the renamer enters one scope; `i.declared` is in hand-out order (after the sort) -/
-def step (c : Cfg) (ν : Naming) (i : Info) : Naming :=
-  if i.rename then assign ν (i.declared.zip (newNames c (i.undeclared.map ν) i.declared.length)) else ν
+/-- the bindings one `renameScope` call makes; `i.declared` is in hand-out order (after the sort) -/
+def stepPairs (c : Cfg) (ν : Naming) (i : Info) : List (VarId × Name) :=
+  if i.rename then i.declared.zip (newNames c (i.undeclared.map ν) i.declared.length) else []
+
+/-- the renamer enters one scope -/
+def step (c : Cfg) (ν : Naming) (i : Info) : Naming := assign ν (stepPairs c ν i)
 
 /-- parents first, then the children, then the following siblings -/
 def renameForest (c : Cfg) (ν : Naming) : Forest → Naming
